@@ -25,6 +25,13 @@
                 `Grid.__eq__`), `remapNN_identity_of_same_points` (the sound identity case is keyed
                 on coordinate lists), `shortcut_on_equal_grids_wrong` (counterexample to a shortcut
                 keyed on grid equality);
+  * tree answer `knnAnswerB_sound`, `kNearest_is_answer`, `nn_from_tree_meets_spec`,
+                `idw_from_tree_between`, `answer_unique`, `value_from_tree_eq_model`: NOTHING is assumed
+                about sklearn — from the per-case judgement of the tree's answer (`knnAnswerB`) follow the
+                nearest-neighbour spec, convexity and the weight spec of what the code computes from it,
+                and (no equally distant sources) equality with the model;
+  * wrapper     `remap_result_grid_is_destination` (dims/shape/attached grid OBJECT for every size),
+                counterexample `fastpath_keeps_source_grid`;
   * dims/kind   `remap_dims`, `kind_by_dim`, `remap_shape`, `k_guard`, and the as-is
                 counterexamples `asis_kind_by_length`, `asis_single_destination_drops_axis`,
                 `asis_idw_single_destination_raises`, `asis_k_guard_refuses_admissible`, with the
@@ -37,6 +44,8 @@ import Mathlib.Tactic.Positivity
 import Mathlib.Algebra.Order.Field.Basic
 import Mathlib.Algebra.Order.Field.Rat
 import Mathlib.Algebra.BigOperators.Group.List.Lemmas
+import Mathlib.Data.List.Perm.Subperm
+import Mathlib.Data.List.Perm.Basic
 import Mathlib.Analysis.SpecialFunctions.Trigonometric.Inverse
 import Mathlib.Analysis.SpecialFunctions.Pow.Real
 import UxVerif.Model.Remap
@@ -883,5 +892,229 @@ theorem shortcut_on_equal_grids_wrong :
   refine ⟨⟨0, 7, fun _ => [0, 1]⟩, ⟨1, 7, fun _ => [1, 0]⟩, [10, 20], rfl, by decide, ?_, ?_⟩
   · decide +kernel
   · decide +kernel
+
+/-! ## 8. nothing is assumed about the tree: everything follows from the per-case judgement of
+       its answer (`knnAnswerB`, evaluated by the driver on what `BallTree.query` returned) -/
+
+section TreeAnswer
+variable {K : Type} [Field K] [LinearOrder K] [IsStrictOrderedRing K]
+
+/-- the tree's answer for one destination point meets the k-nearest specification (exact form) -/
+structure KnnAnswer (D : List K) (k : Nat) (idx : List Nat) (ds : List K) : Prop where
+  len : idx.length = min k D.length
+  nodup : idx.Nodup
+  dists : ds.map some = idx.map (D[·]?)
+  sorted : ds.Pairwise (· ≤ ·)
+  minimal : ∀ i ∈ idx, ∀ j, j < D.length → j ∉ idx → ∀ a b, D[i]? = some a → D[j]? = some b → a ≤ b
+
+/-- the decidable judgement the driver evaluates (tolerance 0) implies the specification -/
+theorem knnAnswerB_sound (D : List K) (k : Nat) (idx : List Nat) (ds : List K)
+    (h : knnAnswerB 0 D k idx ds = true) : KnnAnswer D k idx ds := by
+  simp only [knnAnswerB, Bool.and_eq_true, beq_iff_eq, decide_eq_true_eq, List.all_eq_true,
+    pairwiseB_iff, sub_zero, add_zero, List.mem_range, Bool.or_eq_true, List.contains_iff_mem] at h
+  obtain ⟨⟨⟨⟨⟨h1, h2⟩, h3⟩, h4⟩, h5⟩, h6⟩ := h
+  refine ⟨h1, h3, ?_, h5, ?_⟩
+  · apply List.ext_getElem
+    · simp [h2]
+    · intro n hn1 hn2
+      simp only [List.getElem_map]
+      have hn : n < idx.length := by simpa using hn2
+      have hn' : n < ds.length := by simpa using hn1
+      have hz : (idx[n], ds[n]) ∈ List.zip idx ds := by
+        have : (List.zip idx ds)[n]'(by simp [hn, hn']) = (idx[n], ds[n]) := by simp
+        rw [← this]; exact List.getElem_mem _
+      have := h4 _ hz
+      split at this
+      · rename_i d hd
+        simp only [Bool.and_eq_true, decide_eq_true_eq] at this
+        have : d = ds[n] := le_antisymm this.1 this.2
+        simp [hd, this]
+      · exact absurd this (by simp)
+  · intro i hi j hj hnj a b ha hb
+    rcases h6 i hi j hj with hc | hc
+    · exact absurd hc hnj
+    · simpa [ha, hb] using hc
+
+/-- the model's own brute-force answer meets the specification (so the hypothesis is satisfiable
+    for every distance list and every `k`) -/
+theorem kNearest_is_answer (D : List K) (k : Nat) : KnnAnswer D k (kNearest D k) (kDists D k) := by
+  refine ⟨kNearest_length D k, kNearest_nodup D k, kDists_eq D k, kDists_sorted D k, ?_⟩
+  intro i hi j hj hnj a b ha hb
+  have hi' := kNearest_valid D k i hi
+  have := kNearest_minimal D k i j hi hj hnj
+  rw [List.getElem?_eq_getElem hi'] at ha
+  rw [List.getElem?_eq_getElem hj] at hb
+  simp only [Option.some.injEq] at ha hb
+  rw [← ha, ← hb]; exact this
+
+variable {D : List K} {k : Nat} {idx : List Nat} {ds : List K}
+
+theorem KnnAnswer.valid (h : KnnAnswer D k idx ds) (i : Nat) (hi : i ∈ idx) : i < D.length := by
+  obtain ⟨n, hn, rfl⟩ := List.getElem_of_mem hi
+  have := congrArg (·[n]?) h.dists
+  simp only [List.getElem?_map, List.getElem?_eq_getElem hn, Option.map_some] at this
+  cases hd : ds[n]? with
+  | none => simp [hd] at this
+  | some d =>
+    simp only [hd, Option.map_some] at this
+    exact (List.getElem?_eq_some_iff.mp (Option.some.inj this).symm).1
+
+theorem KnnAnswer.ds_length (h : KnnAnswer D k idx ds) : ds.length = idx.length := by
+  simpa using congrArg List.length h.dists
+
+theorem KnnAnswer.ds_mem (h : KnnAnswer D k idx ds) (d : K) (hd : d ∈ ds) : d ∈ D := by
+  have : some d ∈ ds.map some := List.mem_map_of_mem hd
+  rw [h.dists] at this
+  obtain ⟨i, _, hi⟩ := List.mem_map.mp this
+  exact List.mem_of_getElem? hi
+
+/-- **nearest neighbour from the tree's answer**: if the answer to `query(k = 1)` meets the
+    specification, the value the code takes (`source_data[idx[:, 0]]`) is the value of a nearest
+    source element — whichever of several equally near ones the tree picked. -/
+theorem nn_from_tree_meets_spec (h : KnnAnswer D 1 idx ds) (hD : D ≠ []) (row : List K)
+    (hlen : row.length = D.length) : ∃ v, nnFrom idx row = some v ∧ nnSpecB D row v = true := by
+  have hpos : 0 < D.length := List.length_pos_iff.mpr hD
+  have hl : idx.length = 1 := by rw [h.len]; omega
+  obtain ⟨i, rfl⟩ := List.length_eq_one_iff.mp hl
+  have hi : i < D.length := h.valid i (by simp)
+  have hi' : i < row.length := by omega
+  refine ⟨row[i], by simp [nnFrom, List.getElem?_eq_getElem hi'], ?_⟩
+  refine (nnSpecB_iff D row _).mpr ⟨i, hi, hi', ?_, rfl⟩
+  intro j hj
+  by_cases hji : j = i
+  · subst hji; exact le_refl _
+  · exact h.minimal i (by simp) j hj (by simp [hji]) _ _ (List.getElem?_eq_getElem hi)
+      (List.getElem?_eq_getElem hj)
+
+variable {pw : K → K} {eps : K}
+
+/-- **IDW from the tree's answer**: if the answer meets the specification, the value the code
+    computes from it lies within [min, max] of the values of the returned sources (entries of the
+    data row), and the weights it uses meet the decidable weight specification. -/
+theorem idw_from_tree_between (h : KnnAnswer D k idx ds) (hp : PowOK pw) (heps : 0 < eps)
+    (hk : 1 ≤ k) (hD : D ≠ []) (hnn : ∀ d ∈ D, 0 ≤ d) (row : List K) (hlen : row.length = D.length) :
+    ∃ v vs, gather row idx = v :: vs ∧ (v :: vs).length = min k D.length ∧
+      minL v vs ≤ idwFrom pw eps idx ds row ∧ idwFrom pw eps idx ds row ≤ maxL v vs ∧
+      minL v vs ∈ row ∧ maxL v vs ∈ row ∧ weightsOkB 0 (idwWeights pw eps ds) = true := by
+  have hpos : 0 < D.length := List.length_pos_iff.mpr hD
+  have hgl : (gather row idx).length = min k D.length := by
+    rw [gather_length _ _ (fun i hi => hlen ▸ h.valid i hi), h.len]
+  have hds : ∀ d ∈ ds, 0 ≤ d := fun d hd => hnn d (h.ds_mem d hd)
+  have hdne : ds ≠ [] := by
+    intro he
+    have := h.ds_length
+    rw [he, h.len] at this
+    simp at this; omega
+  cases hg : gather row idx with
+  | nil => rw [hg] at hgl; simp at hgl; omega
+  | cons v vs =>
+    rw [hg] at hgl
+    have hl : (v :: vs).length = ds.length := by rw [hgl, h.ds_length, h.len]
+    have hb := idw_between_min_max (pw := pw) hp heps ds v vs hds hl
+    have hmem : ∀ x ∈ v :: vs, x ∈ row := fun x hx => gather_mem row _ x (hg ▸ hx)
+    refine ⟨v, vs, rfl, hgl, ?_, ?_, hmem _ hb.2.2.1, hmem _ hb.2.2.2,
+      idw_weights_meet_spec hp heps ds hdne hds h.sorted⟩
+    · simpa [idwFrom, hg] using hb.1
+    · simpa [idwFrom, hg] using hb.2.1
+
+/-- **the answer is unique when no two sources are equally far**: any answer meeting the
+    specification IS the model's brute-force answer. -/
+theorem answer_unique (h : KnnAnswer D k idx ds) (hnd : D.Nodup) :
+    idx = kNearest D k ∧ ds = kDists D k := by
+  have h2 := kNearest_is_answer D k
+  have hlen : idx.length = (kNearest D k).length := by rw [h.len, h2.len]
+  -- membership is forced
+  have sub : ∀ {L1 L2 : List Nat} {d1 d2 : List K}, KnnAnswer D k L1 d1 → KnnAnswer D k L2 d2 →
+      L1 ⊆ L2 := by
+    intro L1 L2 d1 d2 a1 a2 i hi
+    by_contra hni
+    have hl : L2.length = L1.length := by rw [a1.len, a2.len]
+    have : ¬ L2 ⊆ L1 := by
+      intro hsub
+      have hp := (List.subperm_of_subset a2.nodup hsub).perm_of_length_le (by omega)
+      exact hni (hp.symm.subset hi)
+    obtain ⟨j, hj2, hj1⟩ : ∃ j, j ∈ L2 ∧ j ∉ L1 := by
+      by_contra hc
+      exact this (fun j hj => Classical.byContradiction (fun hn => hc ⟨j, hj, hn⟩))
+    have hiv := a1.valid i hi
+    have hjv := a2.valid j hj2
+    have e1 := a1.minimal i hi j hjv hj1 _ _ (List.getElem?_eq_getElem hiv) (List.getElem?_eq_getElem hjv)
+    have e2 := a2.minimal j hj2 i hiv hni _ _ (List.getElem?_eq_getElem hjv) (List.getElem?_eq_getElem hiv)
+    have : i = j := (hnd.getElem_inj_iff).mp (le_antisymm e1 e2)
+    exact hj1 (this ▸ hi)
+  have hperm : idx.Perm (kNearest D k) :=
+    (List.subperm_of_subset h.nodup (sub h h2)).perm_of_length_le (by omega)
+  -- the sorted distance lists coincide
+  have hdp : (ds.map some).Perm ((kDists D k).map some) := by
+    rw [h.dists, h2.dists]; exact hperm.map _
+  have hds : ds = kDists D k := by
+    have hinj : Function.Injective (some : K → Option K) := fun _ _ => Option.some.inj
+    have hp : ds.Perm (kDists D k) := (List.map_perm_map_iff hinj).mp hdp
+    exact List.Perm.eq_of_pairwise (fun _ _ _ _ => le_antisymm) h.sorted h2.sorted hp
+  refine ⟨?_, hds⟩
+  apply List.ext_getElem hlen
+  intro n hn1 hn2
+  have e : (idx.map (D[·]?))[n]? = ((kNearest D k).map (D[·]?))[n]? := by
+    rw [← h.dists, ← h2.dists, hds]
+  simp only [List.getElem?_map, List.getElem?_eq_getElem hn1, List.getElem?_eq_getElem hn2,
+    Option.map_some, Option.some.injEq] at e
+  have v1 := h.valid _ (List.getElem_mem hn1)
+  have v2 := h2.valid _ (List.getElem_mem hn2)
+  rw [List.getElem?_eq_getElem v1, List.getElem?_eq_getElem v2, Option.some.injEq] at e
+  exact (hnd.getElem_inj_iff).mp e
+
+/-- **value from the tree = model value**: with no equally distant sources, whatever tree produced
+    an answer meeting the specification, the values the code computes from it are exactly the
+    model's — for nearest neighbour and for IDW, every `k`, every data row. -/
+theorem value_from_tree_eq_model (h : KnnAnswer D k idx ds) (hnd : D.Nodup) (row : List K) :
+    idwFrom pw eps idx ds row = idwAt pw eps k D row ∧
+      (k = 1 → nnFrom idx row = nnAt D row) := by
+  obtain ⟨e1, e2⟩ := answer_unique h hnd
+  subst e1; subst e2
+  exact ⟨rfl, fun hk => by subst hk; rfl⟩
+
+end TreeAnswer
+
+/-- non-vacuity: a concrete answer (ℚ) meeting the judgement, with all distances distinct -/
+example : knnAnswerB (0 : ℚ) [5, 3, 9, 0, 7] 3 [3, 1, 0] [0, 3, 5] = true := by decide +kernel
+example : knnAnswerB (0 : ℚ) [5, 3, 9, 0, 7] 3 [3, 1, 4] [0, 3, 7] = false := by decide +kernel
+example : idwFrom (K := ℚ) (fun d => d ^ 2) (1 / 1000000) [3, 1, 0] [0, 3, 5] [50, 30, 90, 31, 70] =
+    idwAt (fun d => d ^ 2) (1 / 1000000) 3 [5, 3, 9, 0, 7] [50, 30, 90, 31, 70] :=
+  (value_from_tree_eq_model (knnAnswerB_sound _ _ _ _ (by decide +kernel)) (by decide) _).1
+/-- with equally distant sources the tree may return either; both meet the NN specification -/
+example : ∃ v, nnFrom [3] ([50, 30, 90, 31, 70] : List ℚ) = some v ∧
+    nnSpecB ([5, 3, 9, 3, 7] : List ℚ) [50, 30, 90, 31, 70] v = true :=
+  nn_from_tree_meets_spec (knnAnswerB_sound _ _ _ _ (by decide +kernel : knnAnswerB (0 : ℚ) [5, 3, 9, 3, 7] 1 [3] [3] = true))
+    (by simp) _ rfl
+
+/-! ## 9. what the wrappers return -/
+
+/-- **remap_result_grid_is_destination**: for every input dims/shape (any sizes, equal element
+    counts included) the result is attached to the DESTINATION grid object, its dims are the
+    input's with the last replaced by the destination kind's, its shape the leading shape followed
+    by the number of destination points. -/
+theorem remap_result_grid_is_destination (src : Arr) (destGrid : Nat) (dest : Kind) (nDst : Nat)
+    (h : src.dims ≠ []) :
+    ∃ r, wrapResult src destGrid dest nDst = some r ∧ r.grid = destGrid ∧
+      r.dims.length = src.dims.length ∧ r.dims.dropLast = src.dims.dropLast ∧
+      r.dims.getLast? = some dest.dim ∧
+      r.shape.dropLast = src.shape.dropLast ∧ r.shape.getLast? = some nDst := by
+  obtain ⟨o, ho, h1, h2, h3⟩ := remap_dims src.dims dest h
+  refine ⟨{ dims := o, shape := outShape src.shape.dropLast nDst, grid := destGrid }, ?_, rfl,
+    h1, h2, h3, ?_, ?_⟩
+  · simp [wrapResult, ho]
+  · simp [outShape]
+  · simp [outShape]
+
+/-- counterexample to a "same layout ⇒ copy the source variable" fast path: face data on a grid
+    remapped to the face centres of ANOTHER grid with as many faces keeps the source's grid -/
+theorem fastpath_keeps_source_grid :
+    ∃ (src : Arr) (destGrid : Nat), destGrid ≠ src.grid ∧
+      (wrapResult src destGrid .face 4).map (·.grid) = some destGrid ∧
+      (wrapResultFastPath src destGrid .face 4).map (·.grid) = some src.grid := by
+  refine ⟨⟨[.other 0, .face], [2, 4], 0⟩, 1, by decide, by decide, by decide⟩
+
+example : wrapResult ⟨[.other 0, .face], [2, 4], 0⟩ 1 .node 7 = some ⟨[.other 0, .node], [2, 7], 1⟩ := by
+  decide
 
 end UxVerif.C12
